@@ -128,6 +128,30 @@ fn construct_t<T: RealNumber>(c: &mut Case) {
             c.check(&format!("construct:{}", name), got == m, &format!("{}/{}", name, sig), || format!("{} gives {:?} for row-major data {:?} ({}x{})", name, got.d, m.d, r, cc));
         }
     }
+    // exact equality on exact data: two matrices that differ in one entry of magnitude >= 4 by one or two units in the
+    // last place of the width differ by more than the implementation's tolerance (one machine epsilon, absolute)
+    if let Some(Some(a)) = built.get(0).map(|x| x.1.as_ref()) {
+        let pos = c.rng.below(r * cc);
+        let x0 = if d[pos].abs() >= 4.0 && d[pos].abs() < 1e30 { d[pos] } else { *c.rng.pick(&[4.0, -5.0, 1000.5, 16777216.0, -1e8, 4194304.0]) };
+        let k = c.rng.us(1, 2) as i64 * if c.rng.bool(0.5) { 1 } else { -1 };
+        let x1 = if f32w {
+            let b = (x0 as f32).to_bits() as i64 + k;
+            f32::from_bits(b as u32) as f64
+        } else {
+            let b = x0.to_bits() as i64 + k;
+            f64::from_bits(b as u64)
+        };
+        let (i, j) = (pos / cc, pos % cc);
+        let mut a0 = a.clone();
+        a0.set(i, j, t::<T>(x0));
+        let mut a1 = a.clone();
+        a1.set(i, j, t::<T>(x1));
+        if let Some(eq) = c.must("eq", || (a0 == a1, a1 == a0, a0 == a0.clone())) {
+            let apart = (x1 - x0).abs() > 2.0 * eps::<T>();
+            c.check("eq:ulp-apart-is-different", !apart || (!eq.0 && !eq.1), &sig, || format!("matrices differing only in entry ({}, {}): {:e} vs {:e} ({} ulp) compare equal", i, j, x0, x1, k));
+            c.check("eq:clone-is-equal", eq.2, &sig, || "a matrix does not equal its clone".to_string());
+        }
+    }
     if let Some(Some(a)) = built.get(0).map(|x| x.1.as_ref()) {
         let it: Vec<f64> = fv(&a.iter().collect::<Vec<T>>());
         c.check("iter-row-major", it == m.d, &sig, || format!("iter() yields {:?}", it));
